@@ -20,22 +20,30 @@ open Tak.Snapshot
     fresh run then resumes exactly the saved state — parameters, optimiser state, replay buffer
     and counters.  `hsame` is the one thing a save relies on: if the snapshot `latest` designates
     carries the same step counter, it holds this very state (it is then not rewritten).  Along
-    every history this is the case (`C19_history_roundtrip`). -/
+    every history this is the case (`C19_history_roundtrip`).  This holds for EVERY `load_model`
+    setting of the resuming run (unset, a model-only directory, a full snapshot of another run
+    with its own `opt.pt`): nothing of the initial model is applied over the resumed state. -/
 theorem C19_roundtrip (ord : Name → List FName) (s : TrainState) (fs : FS) (hi : FsInv fs)
     (hsame : ∀ c, resume fs = .loaded c → c.elapsed.step = s.elapsed.step → c = s) :
     runAll? (saveOps ord s fs) fs ≠ none ∧
-      resume (runAll (saveOps ord s fs) fs) = .loaded s := by
+      resume (runAll (saveOps ord s fs) fs) = .loaded s ∧
+      ∀ lm, resumeWith lm (runAll (saveOps ord s fs) fs) = .loaded s := by
   obtain ⟨st, h1, h2⟩ := save_complete ord s fs hi hsame
-  exact ⟨by rw [h1]; simp, by rw [runAll_of_runAll? h1]; exact resume_of_new h2⟩
+  have hr : resume (runAll (saveOps ord s fs) fs) = .loaded s := by
+    rw [runAll_of_runAll? h1]; exact resume_of_new h2
+  exact ⟨by rw [h1]; simp, hr, fun lm => resumeWith_loaded lm hr⟩
 
 /-- the same for a hook call that saves (periodic, `SAVE_NOW`, end of run) -/
 theorem C19_roundtrip_hook (t : Trigger) (ord : Name → List FName) (s : TrainState) (fs : FS)
     (hi : FsInv fs) (hs : hookSaves t s fs = true)
     (hsame : ∀ c, resume fs = .loaded c → c.elapsed.step = s.elapsed.step → c = s) :
     runAll? (hookOps t ord s fs) fs ≠ none ∧
-      resume (runAll (hookOps t ord s fs) fs) = .loaded s := by
+      resume (runAll (hookOps t ord s fs) fs) = .loaded s ∧
+      ∀ lm, resumeWith lm (runAll (hookOps t ord s fs) fs) = .loaded s := by
   obtain ⟨st, h1, h2⟩ := hook_complete t ord s fs hi hs hsame
-  exact ⟨by rw [h1]; simp, by rw [runAll_of_runAll? h1]; exact resume_of_new h2⟩
+  have hr : resume (runAll (hookOps t ord s fs) fs) = .loaded s := by
+    rw [runAll_of_runAll? h1]; exact resume_of_new h2
+  exact ⟨by rw [h1]; simp, hr, fun lm => resumeWith_loaded lm hr⟩
 
 -- non-vacuity: first save into an empty directory; a later save over crash debris and an orphan;
 -- a SAVE_NOW request
@@ -48,7 +56,11 @@ example : resume (runAll (saveOps ord0 sB' fsOrphan) fsOrphan) = .loaded sB' :=
     have h : resume fsOrphan = .loaded sA := by decide +kernel
     rw [h] at hc
     cases hc
-    exact absurd he (by decide))).2
+    exact absurd he (by decide))).2.1
+example : resumeWith (.snapshot [7] [8]) (runAll (saveOps ord0 sA []) []) = .loaded sA ∧
+    resumeWith (.snapshot [7] [8]) [] = .warm [7] (some [8]) ∧
+    resumeWith (.modelOnly [7]) [] = .warm [7] none ∧ resumeWith .unset [] = .fresh := by
+  decide +kernel
 example : hookSaves (.afterStep 4) sB (put fsA .saveNow .flag) = true := by decide +kernel
 
 /-! ### interruption -/
@@ -76,6 +88,27 @@ theorem C19_crash_consistent (t : Trigger) (ord : Name → List FName) (s : Trai
     rcases h with h | h <;> rw [h]
     · exact hn
     · simp
+
+/-- … under EVERY `load_model` setting of the resuming run: the start is what it would have been
+    before the call, or the new state; never an error; and once the directory designated a
+    snapshot `c`, the run resumes `c` or `s` — never its `load_model`, never from scratch -/
+theorem C19_crash_consistent_load_model (lm : LoadModel) (t : Trigger) (ord : Name → List FName)
+    (s : TrainState) (fs : FS) (hi : FsInv fs) (k : Nat) :
+    (resumeWith lm (runPrefix k (hookOps t ord s fs) fs) = resumeWith lm fs ∨
+      resumeWith lm (runPrefix k (hookOps t ord s fs) fs) = .loaded s) ∧
+    resumeWith lm (runPrefix k (hookOps t ord s fs) fs) ≠ .error ∧
+    (∀ c, resume fs = .loaded c →
+      resumeWith lm (runPrefix k (hookOps t ord s fs) fs) = .loaded c ∨
+      resumeWith lm (runPrefix k (hookOps t ord s fs) fs) = .loaded s) := by
+  obtain ⟨h, hne, _⟩ := C19_crash_consistent t ord s fs hi k
+  refine ⟨?_, fun he => hne ((resumeWith_error_iff lm _).1 he), ?_⟩
+  · rcases h with h | h
+    · exact Or.inl (resumeWith_congr lm h)
+    · exact Or.inr (resumeWith_loaded lm h)
+  · intro c hc
+    rcases h with h | h
+    · exact Or.inl (resumeWith_loaded lm (h.trans hc))
+    · exact Or.inr (resumeWith_loaded lm h)
 
 /-- the same for the bare save -/
 theorem C19_crash_consistent_save (ord : Name → List FName) (s : TrainState) (fs : FS)
@@ -110,9 +143,9 @@ example : (saveOps ord0 sB fsDebris).length = 19 ∧
     crash prefix of every hook call and re-established by a completed one; together with the
     trainer-side invariant (`MemInv`) it is preserved by every event — so it holds along every
     history of starts, training steps, `SAVE_NOW` requests, saves, crashes and kills. -/
-theorem C19_inv (init : TrainState) (h : List Event) (sys : Sys) (hi : SysInv sys) :
-    SysInv (runHistory init h sys) :=
-  history_inv init h sys hi
+theorem C19_inv (init : TrainState) (lm : LoadModel) (h : List Event) (sys : Sys)
+    (hi : SysInv sys) : SysInv (runHistory init lm h sys) :=
+  history_inv init lm h sys hi
 
 theorem C19_inv_prefix (t : Trigger) (ord : Name → List FName) (s : TrainState) (fs : FS)
     (hi : FsInv fs) (k : Nat) : FsInv (runPrefix k (hookOps t ord s fs) fs) :=
@@ -121,29 +154,42 @@ theorem C19_inv_prefix (t : Trigger) (ord : Name → List FName) (s : TrainState
 theorem C19_inv_init : SysInv ⟨[], none⟩ := sysInv_empty
 
 /-- after ANY history from an empty run directory: resuming never fails on a partial snapshot -/
-theorem C19_history_never_error (init : TrainState) (h : List Event) :
-    resume (runHistory init h ⟨[], none⟩).fs ≠ .error := by
-  have hi := (C19_inv init h _ C19_inv_init).fs
-  rcases resume_of_live hi.live with h | ⟨c, h⟩ <;> rw [h] <;> simp
+theorem C19_history_never_error (init : TrainState) (lm : LoadModel) (h : List Event) :
+    resume (runHistory init lm h ⟨[], none⟩).fs ≠ .error ∧
+      ∀ lm', resumeWith lm' (runHistory init lm h ⟨[], none⟩).fs ≠ .error := by
+  have hi := (C19_inv init lm h _ C19_inv_init).fs
+  have hr : resume (runHistory init lm h ⟨[], none⟩).fs ≠ .error := by
+    rcases resume_of_live hi.live with h | ⟨c, h⟩ <;> rw [h] <;> simp
+  exact ⟨hr, fun lm' he => hr ((resumeWith_error_iff lm' _).1 he)⟩
 
 /-- once the run directory designates a snapshot (some save has completed), no continuation of
-    the history — saves, crashes at any point, restarts — makes a fresh run start from scratch -/
-theorem C19_history_never_fresh_again (init : TrainState) (h₁ h₂ : List Event)
-    (hsaved : resume (runHistory init h₁ ⟨[], none⟩).fs ≠ .fresh) :
-    resume (runHistory init h₂ (runHistory init h₁ ⟨[], none⟩)).fs ≠ .fresh :=
-  history_not_fresh init h₂ _ (C19_inv init h₁ _ C19_inv_init) hsaved
+    the history — saves, crashes at any point, restarts — makes a fresh run start from scratch
+    or from its `load_model`: under every `load_model` setting it resumes a saved state -/
+theorem C19_history_never_fresh_again (init : TrainState) (lm : LoadModel) (h₁ h₂ : List Event)
+    (hsaved : resume (runHistory init lm h₁ ⟨[], none⟩).fs ≠ .fresh) :
+    resume (runHistory init lm h₂ (runHistory init lm h₁ ⟨[], none⟩)).fs ≠ .fresh ∧
+      ∃ c, ∀ lm', resumeWith lm'
+        (runHistory init lm h₂ (runHistory init lm h₁ ⟨[], none⟩)).fs = .loaded c := by
+  have hi₁ := C19_inv init lm h₁ _ C19_inv_init
+  have hnf := history_not_fresh init lm h₂ _ hi₁ hsaved
+  have hi₂ := (C19_inv init lm h₂ _ hi₁).fs
+  refine ⟨hnf, ?_⟩
+  rcases resume_of_live hi₂.live with h | ⟨c, h⟩
+  · exact absurd h hnf
+  · exact ⟨c, fun lm' => resumeWith_loaded lm' h⟩
 
 /-- after ANY history, the state the running trainer holds is restored exactly by an
     uninterrupted saving hook call followed by a fresh start (the hypothesis `hsame` of
     `C19_roundtrip` is discharged by the history invariant) -/
-theorem C19_history_roundtrip (init : TrainState) (h : List Event) (t : Trigger)
+theorem C19_history_roundtrip (init : TrainState) (lm : LoadModel) (h : List Event) (t : Trigger)
     (ord : Name → List FName) (s : TrainState)
-    (hmem : (runHistory init h ⟨[], none⟩).mem = some s)
-    (hs : hookSaves t s (runHistory init h ⟨[], none⟩).fs = true) :
-    ((Event.start).apply init ((Event.hook t ord).apply init (runHistory init h ⟨[], none⟩))).mem
-      = some s := by
-  have hi := C19_inv init h _ C19_inv_init
-  have hrt := (C19_roundtrip_hook t ord s _ hi.fs hs (fun c hc he => (hi.mem s hmem c hc).2 he)).2
+    (hmem : (runHistory init lm h ⟨[], none⟩).mem = some s)
+    (hs : hookSaves t s (runHistory init lm h ⟨[], none⟩).fs = true) :
+    ((Event.start).apply init lm
+      ((Event.hook t ord).apply init lm (runHistory init lm h ⟨[], none⟩))).mem = some s := by
+  have hi := C19_inv init lm h _ C19_inv_init
+  have hrt := (C19_roundtrip_hook t ord s _ hi.fs hs
+    (fun c hc he => (hi.mem s hmem c hc).2 he)).2.1
   simp only [Event.apply, hmem, hrt]
 
 -- non-vacuity: a history with a crash inside a save, a restart, training, a SAVE_NOW request
@@ -152,7 +198,7 @@ def demoHistory : List Event :=
    .train [4] [5] [6] 2 16 4, .crash (.afterStep 1) ord0 7, .start,
    .train [7] [8] [9] 2 17 4, .touch, .hook (.afterStep 5) ord0, .kill, .start]
 
-example : (runHistory ⟨[0], [0], [], ⟨0, 0, 0⟩⟩ demoHistory ⟨[], none⟩).mem
+example : (runHistory ⟨[0], [0], [], ⟨0, 0, 0⟩⟩ (.snapshot [70] [71]) demoHistory ⟨[], none⟩).mem
     = some ⟨[7], [8], [[3], [9]], ⟨2, 17, 4⟩⟩ := by decide +kernel
 
 /-! ### mode switch and replay window -/
